@@ -71,7 +71,7 @@ class Variant:
         f = ["-std=" + self.std, self.opt, "-w", "-I", INC]
         if self.abacus: f.append("-DFIXEDMATH_ENABLE_SQRT_ABACUS_ALGO")
         if self.san:
-            f += ["-g", "-fsanitize=undefined,address", "-fno-sanitize-recover=all", "-D_GLIBCXX_ASSERTIONS",
+            f += ["-g", "-fsanitize=undefined,address,float-cast-overflow", "-fno-sanitize-recover=all", "-D_GLIBCXX_ASSERTIONS",
                   "-fno-omit-frame-pointer"]
         return f
 
